@@ -1,7 +1,182 @@
 import CogentModel.Json
-open CogentModel
+import CogentModel.Model.Csv
+import CogentModel.Model.TableOps
+import CogentModel.Spec.TableRows
+open CogentModel CogentModel.TableOps
 
-def handle (cmd : String) (_j : J) : Except String J :=
-  throw s!"unknown command {cmd}"
+/-! JSON protocol of the C20 driver.
+cells: null | true/false | integer | {"f":"num/den"} | "string".
+tables: {"header":[..], "cols":[[cell..]..], "title": ".."} ; replies carry "header" and "rows". -/
+
+def cellOfJ : J → Except String Cell
+  | .null => pure .missing
+  | .bool b => pure (.bool b)
+  | .num n => pure (.int n)
+  | .str s => pure (.str s)
+  | j@(.obj _) => do pure (.float (← (← j.get "f").toRat))
+  | _ => throw "bad cell"
+
+def cellToJ : Cell → J
+  | .missing => .null
+  | .bool b => .bool b
+  | .int n => .num n
+  | .float q => .obj [("f", J.ofRat q)]
+  | .str s => .str s
+
+def keyToJ : Key → J
+  | .none => .null
+  | .num q => .obj [("f", J.ofRat q)]
+  | .str s => .str s
+
+def tableOfJ (j : J) : Except String Table := do
+  let header ← (← j.get "header").toListOf J.toStr
+  let cols ← (← j.get "cols").toListOf (J.toListOf cellOfJ)
+  let title := match j.get? "title" with
+    | some (.str s) => s
+    | _ => ""
+  pure { header := header, cols := cols, title := title }
+
+def tableToJ (t : Table) : J :=
+  .obj [("header", .arr (t.header.map .str)),
+        ("rows", .arr (t.rows.map fun r => .arr (r.map cellToJ))),
+        ("ncols", .num t.cols.length)]
+
+def exJ {α} (f : α → J) : Except String α → J
+  | .ok a => f a
+  | .error e => .obj [("err", .str e)]
+
+def strsOfJ (j : J) : Except String (List String) := j.toListOf J.toStr
+
+def optStrsOfJ : J → Except String (Option (List String))
+  | .null => pure none
+  | j => do pure (some (← strsOfJ j))
+
+def isNum : Cell → Option Rat
+  | .int n => some n
+  | .float q => some q
+  | _ => none
+
+/-- predicate language for `filtered` callbacks (over the row restricted to the chosen columns) -/
+partial def predOfJ (j : J) : Except String (List Cell → Bool) := do
+  match ← j.toList with
+  | [.str "true"] => pure fun _ => true
+  | [.str "numgt", i, k] => do
+    let i ← i.toNat; let k ← k.toRat
+    pure fun r => match isNum (r.getD i .missing) with | some q => decide (k < q) | none => false
+  | [.str "eq", i, c] => do
+    let i ← i.toNat; let c ← cellOfJ c
+    pure fun r => (r.getD i .missing).key = c.key
+  | [.str "ismissing", i] => do
+    let i ← i.toNat
+    pure fun r => r.getD i (.int 0) = .missing
+  | [.str "strlen_gt", i, n] => do
+    let i ← i.toNat; let n ← n.toNat
+    pure fun r => match r.getD i .missing with | .str s => decide (n < s.length) | _ => false
+  | [.str "and", p, q] => do let p ← predOfJ p; let q ← predOfJ q; pure fun r => p r && q r
+  | [.str "or", p, q] => do let p ← predOfJ p; let q ← predOfJ q; pure fun r => p r || q r
+  | [.str "not", p] => do let p ← predOfJ p; pure fun r => !p r
+  | _ => throw "bad predicate"
+
+/-- function language for `with_new_column` callbacks -/
+def fnSum (r : List Cell) : Cell :=
+  let anyFloat := r.any fun c => match c with | .float _ => true | _ => false
+  let tot : Rat := r.foldl (fun acc c => match isNum c with | some q => acc + q | none => acc) 0
+  if anyFloat then .float tot else .int tot.num
+
+def fnConcat (r : List Cell) : Cell :=
+  .str (r.foldl (fun acc c => match c with | .str s => acc ++ s | _ => acc) "")
+
+def fnNMissing (r : List Cell) : Cell := .int (r.filter (· = .missing)).length
+
+def fnOfJ (j : J) : Except String (List Cell → Cell) := do
+  let l ← j.toList
+  let tag ← (l.headD .null).toStr
+  if tag = "const" then
+    let c ← cellOfJ (l.getD 1 .null)
+    pure (fun _ => c)
+  else if tag = "sum" then pure fnSum
+  else if tag = "concat" then pure fnConcat
+  else if tag = "nmissing" then pure fnNMissing
+  else throw "bad function"
+
+def rowsToJ (rs : List (List (List Char))) : J :=
+  .arr (rs.map fun r => .arr (r.map fun f => .str (String.ofList f)))
+
+def rowsOfJ (j : J) : Except String (List (List (List Char))) :=
+  j.toListOf (J.toListOf fun f => do pure (← f.toStr).toList)
+
+def delimOfJ (j : J) : Except String Char := do
+  match (← (← j.get "delim").toStr).toList with
+  | [c] => pure c
+  | _ => throw "delimiter must be one character"
+
+def handle (cmd : String) (j : J) : Except String J :=
+  match cmd with
+  | "csv_write" => do
+    let d : Csv.Dialect := { delim := ← delimOfJ j, lt := (← (← j.get "lt").toStr).toList }
+    pure (.str (String.ofList (Csv.csvWrite d (← rowsOfJ (← j.get "rows")))))
+  | "csv_read" => do
+    pure (exJ rowsToJ (Csv.csvRead (← delimOfJ j) (← (← j.get "text").toStr).toList))
+  | "table_write" => do
+    let d : Csv.Dialect := { delim := ← delimOfJ j, lt := ['\n'] }
+    let hdr := (← strsOfJ (← j.get "header")).map String.toList
+    pure (.str (String.ofList (Csv.tableWrite d (← (← j.get "title").toStr).toList hdr
+      (← rowsOfJ (← j.get "rows")) (← (← j.get "legend").toStr).toList)))
+  | "load_delimited" => do
+    let r := Csv.loadDelimited (← delimOfJ j) (← (← j.get "with_title").toBool)
+      (← (← j.get "with_legend").toBool) (← (← j.get "text").toStr).toList
+    pure (exJ (fun (h, rows, title, legend) =>
+      .obj [("header", .arr (h.map fun f => .str (String.ofList f))), ("rows", rowsToJ rows),
+            ("title", .str (String.ofList title)), ("legend", .str (String.ofList legend))]) r)
+  | "op" => do
+    let t ← tableOfJ (← j.get "t")
+    match ← (← j.get "op").toStr with
+    | "inner_join" => do
+      let u ← tableOfJ (← j.get "u")
+      pure (exJ tableToJ (t.innerJoin u (← strsOfJ (← j.get "ks")) (← strsOfJ (← j.get "ko"))))
+    | "natural_join" => do
+      let u ← tableOfJ (← j.get "u")
+      let (ks, ko) := t.naturalKeys u
+      pure (exJ tableToJ (t.innerJoin u ks ko))
+    | "cross_join" => do
+      let u ← tableOfJ (← j.get "u")
+      pure (tableToJ (t.crossJoin u))
+    | "get_columns" => pure (exJ tableToJ (t.getColumns (← strsOfJ (← j.get "columns"))))
+    | "filtered" => do
+      let p ← predOfJ (← j.get "pred")
+      pure (exJ tableToJ (t.filtered p (← strsOfJ (← j.get "columns"))))
+    | "count_unique" => do
+      pure (exJ (fun l => .arr (l.map fun (k, n) => .arr [.arr (k.map keyToJ), .num n]))
+        (t.countUnique (← strsOfJ (← j.get "columns"))))
+    | "distinct_values" => do
+      pure (exJ (fun l => .arr (l.map fun k => .arr (k.map keyToJ)))
+        (t.distinctValues (← strsOfJ (← j.get "columns"))))
+    | "with_new_column" => do
+      let f ← fnOfJ (← j.get "fn")
+      pure (exJ tableToJ (t.withNewColumn (← (← j.get "new").toStr) f (← strsOfJ (← j.get "columns"))))
+    | "appended" => do
+      let others ← (← j.get "others").toListOf tableOfJ
+      let nc ← match ← j.get "new" with
+        | .null => pure none
+        | x => do pure (some (← x.toStr))
+      pure (exJ tableToJ (t.appended nc others))
+    | "transposed" => do
+      let sel ← match ← j.get "select" with
+        | .null => pure none
+        | x => do pure (some (← x.toStr))
+      pure (exJ tableToJ (t.transposed (← (← j.get "new").toStr) sel))
+    | "sorted" => do
+      let r := t.sorted (← optStrsOfJ (← j.get "columns")) (← strsOfJ (← j.get "reverse"))
+      -- also return the (transformed) key sequence so that tie order need not be compared
+      pure (exJ tableToJ r)
+    | o => throw s!"unknown op {o}"
+  | "reverse_str" => do
+    let r : List Nat := reverseStr ((← (← j.get "s").toStr).toList.map Char.toNat)
+    pure (.arr (r.map fun (n : Nat) => J.num (Int.ofNat n)))
+  | "lex_le" => do
+    let a := (← (← j.get "a").toStr).toList.map Char.toNat
+    let b := (← (← j.get "b").toStr).toList.map Char.toNat
+    pure (.bool (natLexLe a b))
+  | _ => throw s!"unknown command {cmd}"
 
 def main : IO Unit := driverLoop handle
